@@ -63,6 +63,8 @@ func kindOf(s ast.Stmt) string {
 					return "lock"
 				case "Wait":
 					return "wait"
+				case "Add":
+					return "wgadd"
 				}
 			}
 		}
@@ -153,6 +155,15 @@ func (r *rewriter) inner(s ast.Stmt) {
 		}
 	case *ast.LabeledStmt:
 		r.inner(st.Stmt)
+	case *ast.ExprStmt:
+		// function literals passed to a call, e.g. once.Do(func() { … }): their bodies belong to this function
+		if call, ok := st.X.(*ast.CallExpr); ok {
+			for _, a := range call.Args {
+				if fl, ok := a.(*ast.FuncLit); ok {
+					fl.Body.List = r.block(fl.Body.List)
+				}
+			}
+		}
 	}
 }
 
